@@ -342,6 +342,12 @@ class _ResourceOperations:
     def write_file(self, resource, contents: Union[str, FileContent]):
         data: FileContent
         if not isinstance(contents, bytes):
+            if resource.newlines is None and resource.exists():
+                # The newline convention is detected when a file is read.  This
+                # `File` object has not been read yet (e.g. it belongs to a
+                # change loaded from a saved history): detect it now instead
+                # of silently converting the file to "\n".
+                resource.read()
             data = rope.base.fscommands.unicode_to_file_data(
                 contents,
                 newlines=resource.newlines,
